@@ -509,4 +509,106 @@ example : NoAlias sampleShape ∧ InHeap sampleShape (List.replicate 10 V3.zero)
   · unfold NoAlias; decide
   · unfold InHeap; decide
 
+/-! ### Round 6c: slot cardinalities from the constructors -/
+
+/-- how many parts the slot `attr` of class `cls` holds, according to the model's schema -/
+def slotCard (cls attr : String) : Option (Nat × Option Nat) :=
+  (schema.find? (fun r => r.cls == cls)).bind (fun r => (r.slots.find? (fun s => s.name == attr)).map (fun s => (s.lo, s.hi)))
+
+/-- the cardinalities the model's schema uses for the corner points and edges of a face and the side edges of an
+    operation (hypotheses of the centre theorems through `wfV`) are the ones the constructors insist on: the shape guard
+    `(4, 3)` and the `len(edges) != 4` guard of `Face.__init__`, the four-element list literal of `Operation.__init__`
+    (read with `ast` on every run) -/
+theorem T_C09_cardinality_source :
+    Gen.c09Cardinality.map (fun r => (r.1, r.2.1)) = [("Face", "points"), ("Face", "edges"), ("Operation", "side_edges")] ∧
+      Gen.c09Cardinality.all (fun r => slotCard r.1 r.2.1 == some (r.2.2, some r.2.2)) = true := by
+  constructor <;> rfl
+
+/-! ### Round 6c: `shear` on points and arrays — what the code does, and which part of it is an affine map -/
+
+theorem absQ_nonneg_eq (x : Rat) (h : 0 ≤ x) : absQ x = x := by
+  unfold absQ; split
+  · linarith
+  · rfl
+
+theorem absQ_neg_eq (x : Rat) (h : x < 0) : absQ x = -x := by
+  unfold absQ; simp [h]
+
+/-- a point of the plane stays -/
+theorem T_C09_shear_plane (n o d : V3) (sn sd c : Rat) (p : V3) (h : V3.dot (p - o) n = 0) :
+    shearP n o d sn sd c p = p := by
+  unfold shearP
+  simp [h, absQ, shearTol]
+
+/-- on the side the normal points to (farther than `TOL` from the plane) `shear` IS the affine shear map
+    `p ↦ p + ((p − o)·n̂) cot θ · d̂`; on the other side it is the shear with the OPPOSITE sign (the code takes the absolute
+    distance), so the two half-spaces are sheared the same way and the map as a whole is not affine -/
+theorem T_C09_shear_sides (n o d : V3) (sn sd c : Rat) (p : V3) (hsn : 0 < sn) :
+    (shearTol * sn < V3.dot (p - o) n →
+      shearP n o d sn sd c p = p + V3.smul (V3.dot (p - o) n / sn * c / sd) d) ∧
+    (V3.dot (p - o) n < -(shearTol * sn) →
+      shearP n o d sn sd c p = p + V3.smul (-(V3.dot (p - o) n) / sn * c / sd) d) := by
+  have htol : (0 : Rat) < shearTol := by unfold shearTol; norm_num
+  constructor
+  · intro h
+    have hpos : 0 ≤ V3.dot (p - o) n := by nlinarith
+    have hd : absQ (V3.dot (p - o) n) / sn > shearTol := by
+      rw [absQ_nonneg_eq _ hpos, gt_iff_lt, lt_div_iff₀ hsn]; exact h
+    unfold shearP
+    simp only []
+    rw [if_pos hd, absQ_nonneg_eq _ hpos]
+  · intro h
+    have hneg : V3.dot (p - o) n < 0 := by nlinarith
+    have hd : absQ (V3.dot (p - o) n) / sn > shearTol := by
+      rw [absQ_neg_eq _ hneg, gt_iff_lt, lt_div_iff₀ hsn]; linarith
+    unfold shearP
+    simp only []
+    rw [if_pos hd, absQ_neg_eq _ hneg]
+
+example : (0 : Rat) < 3 ∧ shearTol * 3 < V3.dot ((⟨0, 0, 2⟩ : V3) - ⟨0, 0, 0⟩) ⟨0, 0, 3⟩ := by
+  constructor
+  · norm_num
+  · simp only [shearTol, V3.dot, V3.sub_x, V3.sub_y, V3.sub_z]; norm_num
+
+/-- the displacement is always along `direction`; with an in-plane direction (what a shear is) every point keeps its
+    distance from the plane -/
+theorem T_C09_shear_direction (n o d : V3) (sn sd c : Rat) (p : V3) :
+    V3.cross (shearP n o d sn sd c p - p) d = V3.zero ∧
+      (V3.dot d n = 0 → V3.dot (shearP n o d sn sd c p - o) n = V3.dot (p - o) n) := by
+  unfold shearP
+  simp only []
+  split
+  · constructor
+    · apply V3.ext' <;> v3_unfold <;> simp only [V3.cross_x, V3.cross_y, V3.cross_z, V3.zero] <;> ring
+    · intro hdn
+      simp only [V3.dot] at hdn ⊢
+      v3_unfold
+      linear_combination (absQ ((p.x - o.x) * n.x + (p.y - o.y) * n.y + (p.z - o.z) * n.z) / sn * c / sd) * hdn
+  · constructor
+    · apply V3.ext' <;> v3_unfold <;> simp only [V3.cross_x, V3.cross_y, V3.cross_z, V3.zero] <;> ring
+    · intro _; rfl
+
+/-- as coded `shear` is not an affine map: it does not carry the midpoint of two points on opposite sides of the plane
+    to the midpoint of their images (C09's statement — "applying that affine map" — does not extend to it) -/
+theorem T_C09_shear_not_affine :
+    let sh := shearP ⟨0, 0, 1⟩ ⟨0, 0, 0⟩ ⟨1, 0, 0⟩ 1 1 1
+    sh ⟨0, 0, 1⟩ = ⟨1, 0, 1⟩ ∧ sh ⟨0, 0, -1⟩ = ⟨1, 0, -1⟩ ∧ sh ⟨0, 0, 0⟩ = ⟨0, 0, 0⟩ ∧
+      V3.smul (1 / 2) (sh ⟨0, 0, 1⟩ + sh ⟨0, 0, -1⟩) ≠ sh (V3.smul (1 / 2) (⟨0, 0, 1⟩ + ⟨0, 0, -1⟩)) := by
+  have e1 : shearP ⟨0, 0, 1⟩ ⟨0, 0, 0⟩ ⟨1, 0, 0⟩ 1 1 1 ⟨0, 0, 1⟩ = ⟨1, 0, 1⟩ := by
+    unfold shearP; simp only [V3.dot, V3.sub_x, V3.sub_y, V3.sub_z, absQ, shearTol]; norm_num
+    apply V3.ext' <;> v3_unfold <;> norm_num
+  have e2 : shearP ⟨0, 0, 1⟩ ⟨0, 0, 0⟩ ⟨1, 0, 0⟩ 1 1 1 ⟨0, 0, -1⟩ = ⟨1, 0, -1⟩ := by
+    unfold shearP; simp only [V3.dot, V3.sub_x, V3.sub_y, V3.sub_z, absQ, shearTol]; norm_num
+    apply V3.ext' <;> v3_unfold <;> norm_num
+  have e3 : shearP ⟨0, 0, 1⟩ ⟨0, 0, 0⟩ ⟨1, 0, 0⟩ 1 1 1 ⟨0, 0, 0⟩ = ⟨0, 0, 0⟩ :=
+    T_C09_shear_plane _ _ _ _ _ _ _ (by simp [V3.dot])
+  refine ⟨e1, e2, e3, ?_⟩
+  intro h
+  have hm : V3.smul (1 / 2) ((⟨0, 0, 1⟩ : V3) + ⟨0, 0, -1⟩) = ⟨0, 0, 0⟩ := by
+    apply V3.ext' <;> v3_unfold <;> norm_num
+  rw [e1, e2, hm, e3] at h
+  have := congrArg V3.x h
+  simp only [V3.smul_x, V3.add_x] at this
+  norm_num at this
+
 end CBV.C09
